@@ -11,7 +11,7 @@
    Theorems are for every name type with a correct equality test (C12_names_decidable: byte strings qualify),
    every table type, every genome size and every number of groups. *)
 From Coq Require Import ZArith List Bool String.
-From BNP Require Import Base.Prims Model.C12 Proofs.C12 Proofs.C12_groupby Gen.C12 Bridge.C12.
+From BNP Require Import Base.Prims Model.C12 Corr.C12 Proofs.C12 Proofs.C12_groupby Proofs.C12_pull Proofs.C12_e2e Proofs.C12_link Gen.C12 Bridge.C12.
 Import ListNotations.
 Open Scope Z_scope.
 
@@ -272,6 +272,12 @@ Theorem C12_source_tie :
   /\ gen_change_offsets = m_change_offsets
   /\ gen_join_key_and_payload_index = m_join_key_and_payload_index
   /\ gen_get_data_names_first = m_get_data_names_first
+  /\ (gen_cg_get_iter_stops_on_stopiteration = m_cg_get_iter_stops_on_stopiteration
+      /\ gen_cg_args_in_list_order = m_cg_args_in_list_order
+      /\ gen_cg_streamnode_pulls_first_eagerly = m_cg_streamnode_pulls_first_eagerly
+      /\ gen_streamable_zips_in_arg_order = m_streamable_zips_in_arg_order)
+  /\ (gen_pull_order_get_data = m_pull_order_get_data /\ gen_pull_order_reduce = m_pull_order_reduce
+      /\ gen_pull_order_field = m_pull_order_field /\ gen_pull_order_zip = m_pull_order_zip)
   /\ genome_trace_head = genome_trace (negb m_order_drops_underscore_names) m_walk_checks_before_yield
   /\ (forall order gs, synched_head order gs
         = if m_sync_checks_before_yield then synched_ahead bname zlist_eqb ids [] order gs
@@ -284,9 +290,105 @@ Proof.
           (conj (b_lj_final_ok a) (b_change_at a)))))))))))))
          (conj b_fast_path (conj b_order_drops_underscore_names (conj b_walk_checks_before_yield
          (conj b_sync_checks_before_yield (conj b_change_offsets (conj b_join_key_and_payload_index
-         (conj b_get_data_names_first s_switches)))))))).
+         (conj b_get_data_names_first (conj b_pull_machine (conj b_pull_orders s_switches)))))))))).
 Qed.
 Print Assumptions C12_source_tie.
+
+(* ---- the pull machine: which consumer pulls how far ----
+   lockstep = computation_graph.get_iter over a ComputationNode whose leaves are asked in list order (= Python zip):
+   rounds i = 0, 1, …; in a round every source is asked once, in order; the first exhausted source ends everything, an
+   exception passes through.  The source orders m_pull_order_* are regenerated from the code (C12_source_tie).
+   The consumer observations the synchronisation theorems are stated for are exactly what this machine computes: *)
+Theorem C12_machine_get_data :          (* get_data(): names, data, sizes — the data stream is asked at most N times *)
+  forall (names : list bname) (sizes : list Z) (t : trace ids),
+    List.length sizes = List.length names -> names <> [] -> machine_rows names sizes t = api_rows bname names t.
+Proof. exact machine_rows_is_api_rows. Qed.
+Print Assumptions C12_machine_get_data.
+Theorem C12_machine_reduce :            (* np.sum(pileup): data, sizes — the data stream is run to its end *)
+  forall (sizes : list Z) (t : trace ids),
+    (List.length (fst t) <= List.length sizes)%nat -> machine_flat sizes t = api_flat t.
+Proof. exact machine_flat_is_api_flat. Qed.
+Print Assumptions C12_machine_reduce.
+Theorem C12_machine_field : forall t : trace ids, machine_field t = api_flat t.     (* gi.start: the data stream alone *)
+Proof. exact machine_field_is_api_flat. Qed.
+Print Assumptions C12_machine_field.
+Theorem C12_machine_zip_second :        (* zip(ms.a, ms.b, ms.lengths), first stream complete: b is asked N times *)
+  forall (ya : list ids) (sizes : list Z) (t : trace ids),
+    List.length ya = List.length sizes -> machine_zip_second (ya, Stop) sizes t = pull_n (List.length sizes) t.
+Proof. exact machine_zip_second_is_pull_n. Qed.
+Print Assumptions C12_machine_zip_second.
+
+(* ---- THE PROPERTY for the code at /repo HEAD, genome route (Genome.get_intervals / get_track / read_intervals(stream)
+   under bnp.compute), end to end: for every genome, every filter and ignored set with at least one included contig,
+   every data set whose contigs are contiguous, every cut into non-empty chunks — every consumer (get_data rows,
+   start/stop, sum; as the model observes them and as the pull machine computes them) returns exactly the per-contig
+   assignment under the right labels, or raises.  Nothing is dropped, nothing is misattributed. ---- *)
+Theorem C12_head_genome_end_to_end :
+  forall (keepall : bool) (genome extra : list bname) (chunks : list (list (bname * Z))) (sizes : list Z),
+    NoDup genome -> Forall (fun c => c <> []) chunks -> contiguous bname (map fst (List.concat chunks)) ->
+    let incl := ctx_included bname zlist_eqb has_underscore keepall genome extra in
+    let ign := ctx_ignored bname has_underscore keepall genome extra in
+    let D := runs bname zlist_eqb (List.concat chunks) in
+    let t := genome_trace_head keepall genome extra chunks in
+    incl <> [] -> List.length sizes = List.length incl ->
+    match spec_sync bname zlist_eqb ids [] incl ign D with
+    | Some a => api_rows bname incl t = Done (labelled incl a) /\ api_flat t = Done (List.concat a)
+                /\ api_sum t = Done (len (List.concat a))
+                /\ machine_rows incl sizes t = Done (labelled incl a) /\ machine_flat sizes t = Done (List.concat a)
+    | None => (exists c, api_rows bname incl t = Err c) /\ (exists c, api_flat t = Err c) /\ (exists c, api_sum t = Err c)
+              /\ (exists c, machine_rows incl sizes t = Err c) /\ (exists c, machine_flat sizes t = Err c)
+    end.
+Proof. exact head_genome_end_to_end. Qed.
+Print Assumptions C12_head_genome_end_to_end.
+
+(* ---- MultiStream at /repo HEAD, end to end.  An attribute run to its end (list(ms.a), the FIRST stream of
+   forbes/jaccard): the full property.  The SECOND stream of the zip (known finding
+   C12-multistream-second-stream-unchecked): exact when the data is order-compatible; otherwise it may complete
+   (C12_zip_second_refuted) — but even then no entry is ever delivered under another contig
+   (C12_zip_second_never_misattributes). ---- *)
+Theorem C12_head_multistream_end_to_end :
+  forall (order : list bname) (chunks : list (list (bname * Z))),
+    NoDup order -> Forall (fun c => c <> []) chunks -> contiguous bname (map fst (List.concat chunks)) ->
+    let D := runs bname zlist_eqb (List.concat chunks) in
+    let t := synched_head order (grouped bname zlist_eqb chunks) in
+    match spec_sync bname zlist_eqb ids [] order [] D with
+    | Some a => pull_all t = Done a
+                /\ forall ya sizes, List.length ya = List.length sizes -> List.length sizes = List.length order ->
+                     machine_zip_second (ya, Stop) sizes t = Done a
+    | None => exists c, pull_all t = Err c
+    end.
+Proof. exact head_multistream_end_to_end. Qed.
+Print Assumptions C12_head_multistream_end_to_end.
+Theorem C12_zip_second_never_misattributes :
+  forall (name : Type) (neqb : name -> name -> bool), (forall a b, neqb a b = true <-> a = b) ->
+  forall (P : Type) (empty : P) (order : list name) (gs : list (name * P)) (k : nat) (ys : list P),
+    NoDup (map fst gs) ->
+    pull_n k (synched name neqb P empty order gs) = Done ys ->
+    Forall2 (fun c y => y = empty \/ y = lookup name neqb P empty c gs) (firstn (List.length ys) order) ys.
+Proof. exact synched_never_misattributes. Qed.
+Print Assumptions C12_zip_second_never_misattributes.
+
+(* ---- the two verdicts of the check (Corr/C12.v): on every well-formed case (gen_ok: the chunks are the groups,
+   group names distinct = the precondition, no empty chunk or group) where the implementation agrees with the model,
+   the property holds — genome route (at least one included contig) and left_join route unconditionally; MultiStream
+   route: the attribute run to its end always, the zip's second stream and the contingency table whenever the data is
+   order-compatible (the rest is the known finding). ---- *)
+Theorem C12_model_ok_implies_spec_ok_genome :
+  forall c : case, k_route c = 0 -> gen_ok c = true ->
+    ctx_included bname zlist_eqb has_underscore (k_keepall c) (k_genome c) (k_extra c) <> [] ->
+    model_ok c = true -> spec_ok c = true.
+Proof. exact genome_route_link. Qed.
+Print Assumptions C12_model_ok_implies_spec_ok_genome.
+Theorem C12_model_ok_implies_spec_ok_multistream_partial :
+  forall c : case, k_route c = 1 -> gen_ok c = true -> model_ok c = true ->
+    let exp := spec_sync bname zlist_eqb ids [] (k_genome c) [] (k_groups c) in
+    all_ok (meets zll_eqb exp) (k_mslist c) = true /\ (exp <> None -> spec_ok c = true).
+Proof. exact multistream_route_link. Qed.
+Print Assumptions C12_model_ok_implies_spec_ok_multistream_partial.
+Theorem C12_model_ok_implies_spec_ok_left_join :
+  forall c : case, k_route c <> 0 -> k_route c <> 1 -> gen_ok c = true -> model_ok c = true -> spec_ok c = true.
+Proof. exact left_join_route_link. Qed.
+Print Assumptions C12_model_ok_implies_spec_ok_left_join.
 
 (* non-vacuity: a concrete genome (chr1, chr2_alt ignored by the default filter, chr3), data for chr1, the
    ignored contig and chr3 in three chunks with a cut inside chr1: the hypotheses hold, the Spec yields the
@@ -302,4 +404,15 @@ Example C12_nonvacuous :
   /\ spec_sync bname zlist_eqb ids [] incl ign D = Some [[0; 1]; [3]]
   /\ api_flat (genome_trace_head false genome [] chunks) = Done [0; 1; 3]
   /\ api_rows bname incl (genome_trace_head false genome [] chunks) = Done [(chr1, 0); (chr1, 1); (chr3, 3)].
+Proof. vm_compute. repeat split; reflexivity. Qed.
+
+(* non-vacuity of the machine statements: on the same concrete data the pull machine itself returns the rows, and on a
+   mis-ordered second stream it reproduces the known finding (completes, chr1's entry gone, nothing mislabelled) *)
+Example C12_machine_nonvacuous :
+  let chr1 := unhex "63687231"%string in let chr2 := unhex "63687232"%string in
+  let t := genome_trace_head false [chr1; chr2] [] [[(chr1, 0)]; [(chr1, 1); (chr2, 2)]] in
+  machine_rows [chr1; chr2] [40; 40] t = Done [(chr1, 0); (chr1, 1); (chr2, 2)]
+  /\ machine_flat [40; 40] t = Done [0; 1; 2]
+  /\ machine_zip_second ([[9]; [8]], Stop) [40; 40] (synched_head [chr1; chr2] [(chr2, [0]); (chr1, [1])]) = Done [[]; [0]]
+  /\ pull_all (synched_head [chr1; chr2] [(chr2, [0]); (chr1, [1])]) = Err E_SEEN.
 Proof. vm_compute. repeat split; reflexivity. Qed.
